@@ -108,6 +108,10 @@ pub struct Counters {
   pub pulls: std::sync::Mutex<Vec<u64>>,
   /// global event stamps of every `poll_next` call of a PollStream
   pub polls: std::sync::Mutex<Vec<u64>>,
+  /// global event stamps of every tick a Ticker emitted
+  pub ticks: std::sync::Mutex<Vec<u64>>,
+  /// number of Ticker instances built (inner sub-trees are built per outer item)
+  pub ticker_instances: AtomicU64,
 }
 
 pub struct CountIt {
@@ -187,7 +191,17 @@ macro_rules! build_fn {
           .on_error_map(|_| 0)
           .box_it(),
         Node::Timer { d } => observable::timer(Val::I(800), ms(*d), $sched).on_error_map(|_| 0).box_it(),
-        Node::Ticker { p } => observable::interval(ms((*p).max(1)), $sched).map(|i| Val::I(700 + i as i64)).on_error_map(|_| 0).box_it(),
+        Node::Ticker { p } => {
+          let c = env.counters.clone();
+          c.ticker_instances.fetch_add(1, SeqCst);
+          observable::interval(ms((*p).max(1)), $sched)
+            .map(move |i| {
+              c.ticks.lock().unwrap().push(shared().stamp());
+              Val::I(700 + i as i64)
+            })
+            .on_error_map(|_| 0)
+            .box_it()
+        }
         Node::PullIter(n) => observable::from_iter(CountIt { i: 0, n: *n, c: env.counters.clone() }).on_error_map(|_| 0).box_it(),
         Node::PollStream(n) => observable::from_stream(CountStream { i: 0, n: *n, c: env.counters.clone() }, $sched).on_error_map(|_| 0).box_it(),
         Node::B(op, a, b) => {
